@@ -27,6 +27,9 @@ CLAIMED = {
  "C12": ("Coq theorem C12_roundtrip: for every pattern, flag, context values in Z, output modes, blank-free file path and every iteration order of the option map, the server's decoding (Write -> handleCommand -> option parsing -> dispatch -> regex.Deserialize) of the bytes the client sends yields exactly the requested read command; base64/strconv enter as hypotheses. Model tied to the code by running the real client constructors + SendMessage and the real ServerHandler.Write on hostile patterns and option values, including dmap's option-less first command.",
          "encoding/base64, strconv, regexp.Compile, mapr.NewQuery are oracles (hypotheses in the theorem, per-case tables in the correspondence check)",
          "Coq proof (split/join algebra over bytes, induction over option lists) + differential correspondence check"),
+ "C13": ("Coq LTS of the shared limiter (readers Idle/Waiting/Holding/Done, events Start/Acquire/CancelWaiting/Finish, the channel length); theorems for every limit, number of readers and history: C13_inv (channel length = number of holders <= limit), C13_cancel (a cancelled waiter neither keeps nor releases a slot), C13_progress (a free slot can always be taken by a waiter); the pinned ordering of the deferred release is refuted with the witness history. Tied to the code by scripted start/stop histories over real sessions sharing a limiter, observed through len(limiter) and the open files of the process, sequenced with the verif hooks.",
+         "partial: scheduler fairness among waiters is not claimed; the harness observes at quiescence only",
+         "Coq proof (invariant by induction over histories, counting lemma) + hook-sequenced correspondence on real sessions"),
  "C16": ("Coq model of brush.Colorfy (record kinds, SplitN, the painters' trim-and-reappend of the newline, codes as abstract complete SGR sequences) and of the client handlers' Write; theorems: C16_text (text parts of the rendering concatenate to the message - for every message), no-panic for the repaired painters and the mapreduce handler, refutation witness for the pinned painters; the strip statement is proved on the finite domain of all 66 430 messages of <= 5 symbols over the special-byte alphabet (C16_strip_partial), the unbounded version is stated and exercised. Tied to the code through brush.Colorfy and the three handlers on generated messages/streams with colours on and off.",
          "partial: unbounded strip theorem not proved; palette abstracted; terminal outside the model",
          "Coq proof (structural lemmas; finite sweep lifted by forallb_forall) + differential correspondence check"),
